@@ -21,7 +21,7 @@ claims = {
          "(open/openat: write whenever O_ACCMODE != 0 or O_CREAT or O_TRUNC; openat2: write unless open_how could be read and says read-only) and the path kres(pid, dirfd, string at the path register), where the directory descriptor is read as the kernel reads it (C int: low 32 bits, sign-extended) from the right register; "
          "absPath/absPathAt choose the base exactly by the kernel rule (absolute: /, AT_FDCWD: cwd, else the descriptor's directory, unresolvable -> empty path); procfs references go to the procfs policy. Found and fixed: dirfd decoded from the whole 64-bit register; symlinkat decoded with mkdirat's argument positions. "
          "Bounded part (labelled bounded): the symlink walk resolveTraceePath itself is compared with the kernel on a real tree for every path up to 4 (thorough: 5) components; it exposes two genuine defects kept as known findings (lexical '..' before symlink expansion; final symlink followed for no-follow calls)."),
-   note=TRUST + "decode table (spec in the Handle contract) transcribed from the man pages; GetString/tracee memory, /proc readlinks, ToSyscallName table and readOpenHowFlags are trusted/abstracted; calls the handler does not decode (mkdir, rmdir, creat, truncate, chown, utimes ...) go to the syscall-name policy and are outside the statement's 'path it presents'; the resolver is only bounded-checked, never counted as proved.",
+   note=TRUST + "decode table (spec in the Handle contract) transcribed from the man pages; GetString/tracee memory, /proc readlinks (getProcCwd/getProcFd verified for safety, results abstract), ToSyscallName table and readOpenHowFlags are trusted/abstracted; calls the handler does not decode (mkdir, rmdir, creat, truncate, chown, utimes ...) go to the syscall-name policy and are outside the statement's 'path it presents'; the resolver is only bounded-checked, never counted as proved.",
    design_ref="DESIGN.md §4 C02"),
  "C03": dict(level="proof",
    text=("Tracer side: handleTrap (ban => exactly one register write with syscall number -1 for that pid, kill => error, allow => no write), handle (a non-Normal verdict is returned without continuing the tracee; "
@@ -33,7 +33,7 @@ claims = {
    text=("One contract on forkexec.forkAndExecInChild with a symbolic *Runner (all option combinations at once) over ghost child state K: at both exec call sites and in the ETXTBSY retry loop "
          "caps empty + NOROOT locked when credentials/drop-caps requested, no_new_privs when requested or a filter is given, the filter installed iff given (that very program, TSYNC), uid/gid/groups, new session, ctty, cwd, host/domain name issued with the configured length, "
          "clone/clone3 flags = requested namespaces, INTO_CGROUP iff a cgroup fd is given; late cgroup unshare only after the sync ack. Every raw syscall may fail in the model, so a dropped error check is a reachable path."),
-   note=TRUST + "kernel model K (spec/kernel_K.contracts, from the man pages); results of sethostname/setdomainname/unshare are ignored by the code and asserted on issue only; Runner literals: container handleExecve and unshare.Run are checked at their Start call sites (always no_new_privs + drop-caps; unshare: exactly the five unshare namespaces, late cgroup unshare, no ptrace); found and fixed: a Runner without a seccomp filter crashed in Filter.SockFprog instead of starting the program without one. ptrace.Run's literal is not under contract.",
+   note=TRUST + "kernel model K (spec/kernel_K.contracts, from the man pages); results of sethostname/setdomainname/unshare are ignored by the code and asserted on issue only; Runner literals: container handleExecve and unshare.Run are checked at their Start call sites (always no_new_privs + drop-caps; unshare: exactly the five unshare namespaces, late cgroup unshare, no ptrace); found and fixed: a Runner without a seccomp filter crashed in Filter.SockFprog instead of starting the program without one. ptrace.Run is checked at its Trace call site (ptrace on, exactly the caller's filter or none, the tracer consults exactly the caller's policy).",
    design_ref="DESIGN.md §4 C04"),
  "C05": dict(level="proof",
    text=("Raw in-child mount sequence (forkAndExecInChild, model K): loop invariant over all mount entries (each mounted with exactly its source/target/type/flags/data; bind-read-only entries remounted with at least their own flags plus REMOUNT), "
@@ -86,7 +86,7 @@ claims = {
  "C15": dict(level="proof",
    text=("No-panic/termination obligations for tracer-side code under an unconstrained tracee: clen, hasNull, vmRead, vmReadStr, GetString, Context accessors, handle, handleTrap, trace (Runner Error only on the two launcher-side causes), IsInSetSmart/dirname; "
          "found and fixed: clen returned len+1 for unterminated buffers (slice bounds panic)."),
-   note=TRUST + "kernel model T for process_vm_readv / PEEKDATA; runner/ptrace handle_linux.go functions not under contract yet.",
+   note=TRUST + "kernel model T for process_vm_readv / PEEKDATA. Also covered: every function of runner/ptrace/handle_linux.go that runs on tracee-controlled registers and strings (Handle, the check* family, absPath/absPathAt, getString*, checkProcPath, isAllowedProcAlias, isDangerousProcPath, normalizeProcMagicPath, resolveTraceePath with its 40-step bound, resolveTraceePathOnce, getProcCwd/getProcFd) - no index/slice/nil/overflow failure for any input, with strings/filepath/os helpers as assumed contracts; readOpenHowFlags stays trusted. 'Never stops making progress' is proved as loop termination (decreases / bounded counters) of the tracer-side loops only; blocking in the kernel is out of reach.",
    design_ref="DESIGN.md §4 C15"),
  "C16": dict(level="proof",
    text=("Arming only (thin): Builder.startContainer starts the container init with SysProcAttr.Pdeathsig == SIGKILL on the path that reaches exec.Cmd.Start; the ptrace option word installed for every traced pid before its first continue contains PTRACE_O_EXITKILL (C03 obligations); the container serve loop never returns nil (every transport error ends it)."),
